@@ -34,6 +34,7 @@ pub fn generic_replay(case: &Value) -> Option<String> {
         Some("parse") => props::c05::replay(case),
         Some("tree") => props::c06::replay(case),
         Some("prep") => props::c07::replay(case),
+        Some("c01chains") => { let v = props::c01::job_chains(case); v["problems"].as_array().and_then(|a| a.first()).map(|p| p["what"].as_str().unwrap_or("").to_string()) }
         Some("c01big") => props::c01::replay_big(case),
         Some("c02big") => props::c02::replay_big(case),
         Some("prep_tree") => props::c07::replay_tree(case),
